@@ -10,6 +10,11 @@ use imap_proto::types::*;
 
 use crate::prng::Rng;
 
+/// Keep generated values inside limits that RFCs impose beyond the grammar (RFC 2971 field / value
+/// lengths).  On for the checks whose oracle presumes a conformant server (C03, C08, C12, C15, C16);
+/// the robustness checks (C01, C02, C09), which quantify over all byte strings, switch it off.
+pub static RFC_LIMITS: std::sync::atomic::AtomicBool = std::sync::atomic::AtomicBool::new(true);
+
 pub struct GenCfg {
     /// max nesting depth of body structures (multipart/message) and of BodyExtension::List; 0 = leaves only
     pub max_depth: u32,
@@ -1205,7 +1210,7 @@ pub fn gen_response_kind(rng: &mut Rng, cfg: &GenCfg, kind: usize) -> Response<'
                 tries += 1;
                 // RFC 2971 section 3.3: field names are at most 30 octets, values at most 1024
                 let clamp = |mut t: String, max: usize| {
-                    while t.len() > max {
+                    while RFC_LIMITS.load(std::sync::atomic::Ordering::Relaxed) && t.len() > max {
                         t.pop();
                     }
                     t
